@@ -613,7 +613,17 @@ fn sais_case(f: &[&str]) -> String {
     exp.sort_by(|a, b| s[*a..].cmp(&s[*b..]));
     let same32 = sa32.iter().map(|x| *x as usize).eq(exp.iter().copied());
     let same = sa == exp;
-    format!("sa={} ok32={} ok={}", join(&sa32), same32 as u8, same as u8)
+    // psi/mod.rs: the three public ways of computing psi from (sa, isa)
+    let mut isa = vec![0usize; sa.len()];
+    for (i, p) in sa.iter().enumerate() {
+        isa[*p] = i;
+    }
+    let isa32: Vec<u32> = isa.iter().map(|x| *x as u32).collect();
+    let p1 = scrunch::psi::compute(&isa);
+    let p2 = scrunch::psi::compute_u32(&isa32);
+    let p3 = scrunch::psi::compute_from_sa_isa_u32(&sa32, &isa32);
+    let agree = p1.iter().copied().eq(p2.iter().map(|x| *x as usize)) && p1.iter().copied().eq(p3.iter().map(|x| *x as usize));
+    format!("sa={} ok32={} ok={} psi={} psi3={}", join(&sa32), same32 as u8, same as u8, join(&p1), agree as u8)
 }
 
 // ------------------------------------------------------------------ in-harness random search
